@@ -380,7 +380,73 @@ func execSessionStress(a []string) string {
 
 var lastFailDetail string
 
+// session.late <rounds> <burst> <seed>: services that register while the session is open — several in a row, so that
+// the session refreshes its list several times in a row.  A registered service is requested until the session
+// knows it (the announcement takes its time), which has to happen; then it goes again.
+func childSessionLate(a []string) string {
+	log.SetOutput(ioutil.Discard)
+	rounds, _ := strconv.Atoi(a[0])
+	burst, _ := strconv.Atoi(a[1])
+	addrA := util.NewUnixAddr()
+	dsrv, err := dir.NewServer(addrA, nil)
+	if err != nil {
+		return "setup-error:" + err.Error()
+	}
+	defer dsrv.Terminate()
+	sess, err := session.NewSession(addrA)
+	if err != nil {
+		return "setup-error:" + err.Error()
+	}
+	defer sess.Terminate()
+	time.Sleep(20 * time.Millisecond)
+	for round := 0; round < rounds; round++ {
+		var names []string
+		var svcs []bus.Service
+		for j := 0; j < burst; j++ {
+			name := fmt.Sprintf("Late%d_%d", round, j)
+			svc, err := dsrv.NewService(name, pong.PingPongObject(&probeImpl{name: name + "/"}))
+			if err != nil {
+				return "setup-error:" + err.Error()
+			}
+			names = append(names, name)
+			svcs = append(svcs, svc)
+		}
+		for _, name := range names {
+			deadline := time.Now().Add(3 * time.Second)
+			for {
+				proxy, err := sess.Proxy(name, 1)
+				if err == nil {
+					got, err := pong.MakePingPong(sess, proxy).Hello("x")
+					if err != nil || got != "echo:"+name+"/x" {
+						return fmt.Sprintf("fail:wrong-answer %v %q from %s", err, got, name)
+					}
+					break
+				}
+				if time.Now().After(deadline) {
+					return "fail:registered-service-never-known:" + err.Error()
+				}
+				time.Sleep(300 * time.Microsecond)
+			}
+		}
+		for _, svc := range svcs {
+			svc.Terminate()
+		}
+	}
+	return "ok"
+}
+
 func init() {
+	children["session.late"] = childSessionLate
+	executors["session.late"] = func(a []string) string {
+		out := runChild("session.late", strings.Join(a, " "), 180*time.Second, 0)
+		if out.Result != "ok" {
+			lastFailDetail = out.Stderr
+		}
+		if out.Result == "crash-noresult" {
+			return "crash"
+		}
+		return out.Result
+	}
 	children["session.flood"] = childSessionFlood
 	executors["session.flood"] = func(a []string) string {
 		out := runChild("session.flood", strings.Join(a, " "), 60*time.Second, 0)
@@ -404,6 +470,20 @@ func runC19(r *Rand, tier string, o *Out) {
 			o.Fail("shared session: requests dropped once more are in flight than the server buffers", op+" => "+res)
 		} else if res != "ok" {
 			o.Fail("shared session flood: "+res, op+" => "+res+" stderr: "+tail(lastFailDetail, 400))
+		}
+	}
+	// services that register while the session is open
+	late := [][2]int{{300, 6}, {300, 2}}
+	if tier == "thorough" {
+		late = [][2]int{{5000, 6}, {5000, 2}, {2000, 12}}
+	}
+	for _, l := range late {
+		op := fmt.Sprintf("session.late %d %d %d", l[0], l[1], r.U64()%100000)
+		res := o.Do("P", op, true)
+		o.Count("late-registrations")
+		if res != "ok" {
+			cls := strings.SplitN(strings.TrimPrefix(res, "fail:"), ":", 2)[0]
+			o.Fail("a service registered while the session is open: "+cls, op+" => "+res+" "+crashReason(lastFailDetail))
 		}
 	}
 	cases := [][2]int{{2, 6}, {8, 6}, {32, 3}}
